@@ -23,3 +23,5 @@ run_one() {
 }
 export -f run_one
 printf "%s\n" "${seeds[@]}" | xargs --process-slot-var=VERIF_SLOT -P ${MATRIX_JOBS:-4} -I{} bash -c 'run_one {}'
+# drop the per-worker build slots (about 2 GB each)
+for d in /verif/.work/target/*-w${VERIF_SLOT_PREFIX}[0-9]*; do [ -d "$d" ] && rm -rf "$d"; done
